@@ -52,7 +52,11 @@ class Clause(object):
 class Enumerated(object):
   """A finite domain enumerated completely: cases(tier, shard, nshards)."""
 
-  def __init__(self, name, cases, run_case, shards=None, doc="", floors=None):
+  def __init__(self, name, cases, run_case, shards=None, doc="", floors=None,
+               distinct_by_construction=True):
+    # cases of an enumeration are pairwise distinct by construction, so the
+    # non-trivial ones are counted instead of hashed (memory)
+    self.distinct_by_construction = distinct_by_construction
     self.name = name
     self.cases = cases
     self.run_case = run_case
@@ -78,9 +82,11 @@ def describe_exc(e):
 
 
 class _Stats(object):
-  def __init__(self):
+  def __init__(self, count_only=False):
     self.evals = 0
     self.rejected = 0
+    self.count_only = count_only
+    self.ntc = 0
     self.nt = set()
     self.labels = {}
     self.samples = {}
@@ -92,13 +98,16 @@ class _Stats(object):
     for lb in labels:
       self.labels[lb] = self.labels.get(lb, 0) + 1
     if rec.get("nontrivial"):
-      self.nt.add(codec.chash(case))
+      if self.count_only:
+        self.ntc += 1
+      else:
+        self.nt.add(codec.chash(case))
       key = labels[0] if labels else "-"
       if key not in self.samples and len(self.samples) < 6:
         self.samples[key] = {"labels": labels[:8], "case": codec.enc(case)}
 
   def result(self):
-    return {"evals": self.evals, "rejected": self.rejected, "nt": self.nt,
+    return {"evals": self.evals, "rejected": self.rejected, "nt": self.nt, "ntc": self.ntc,
             "labels": self.labels, "samples": list(self.samples.values()),
             "fail": self.fail}
 
@@ -165,7 +174,7 @@ def _run_hypothesis(mod, clause, tier, seedv, shard, nshards, examples):
 
 
 def _run_enumerated(mod, clause, tier, shard, nshards):
-  stats = _Stats()
+  stats = _Stats(count_only=clause.distinct_by_construction)
   err = None
   try:
     for case in clause.cases(tier, shard, nshards):
@@ -194,7 +203,7 @@ def _task(args):
     else:
       res = _run_enumerated(mod, clause, tier, shard, nshards)
   except (Exception, OverRead) as e:
-    res = {"evals": 0, "rejected": 0, "nt": set(), "labels": {}, "samples": [],
+    res = {"evals": 0, "rejected": 0, "nt": set(), "ntc": 0, "labels": {}, "samples": [],
            "fail": None, "error": "worker: " + describe_exc(e) + "\n" + traceback.format_exc()}
   res["clause"] = ci
   res["wall"] = time.time() - t0
@@ -308,11 +317,12 @@ def run_property(mod, tier, seedv, only=None, jobs=None):
   results = list(results) + _run_regress(mod)
   for r in results:
     c = mod.CLAUSES[r["clause"]]
-    m = per.setdefault(c.name, {"evals": 0, "rejected": 0, "nt": set(), "labels": {},
+    m = per.setdefault(c.name, {"evals": 0, "rejected": 0, "nt": set(), "ntc": 0, "labels": {},
                                 "samples": [], "fails": [], "errors": [], "clause": c})
     m["evals"] += r["evals"]
     m["rejected"] += r["rejected"]
     m["nt"] |= r["nt"]
+    m["ntc"] += r.get("ntc", 0)
     for k, v in r["labels"].items():
       m["labels"][k] = m["labels"].get(k, 0) + v
     if len(m["samples"]) < 3:
@@ -356,7 +366,9 @@ def run_property(mod, tier, seedv, only=None, jobs=None):
                         % (name, lb, got, share))
 
   evals = sum(m["evals"] for m in per.values())
-  nt = sum(len(m["nt"]) for m in per.values())
+  for m in per.values():
+    m["ntn"] = len(m["nt"]) + m["ntc"]
+  nt = sum(m["ntn"] for m in per.values())
   samples = []
   for name, m in per.items():
     for s in m["samples"]:
@@ -379,7 +391,7 @@ def run_property(mod, tier, seedv, only=None, jobs=None):
       "samples": samples,
       "exhaustive": exhaustive,
       "clauses": {name: {"kind": m["clause"].kind, "evaluations": m["evals"],
-                         "distinct_nontrivial": len(m["nt"]),
+                         "distinct_nontrivial": m["ntn"],
                          "rejected_by_domain": m["rejected"],
                          "labels": dict(sorted(m["labels"].items())),
                          "what": m["clause"].doc}
@@ -413,7 +425,7 @@ def run_property(mod, tier, seedv, only=None, jobs=None):
   print("%s %s seed=%d: %d evaluations, %d distinct non-trivial, %d violation(s), %.1fs"
         % (mod.ID, tier, seedv, evals, nt, len(violations), time.time() - t0))
   for name, m in per.items():
-    print("  %-22s evals=%-7d nontrivial=%-7d rejected=%d" % (name, m["evals"], len(m["nt"]), m["rejected"]))
+    print("  %-22s evals=%-7d nontrivial=%-7d rejected=%d" % (name, m["evals"], m["ntn"], m["rejected"]))
   return status
 
 
